@@ -26,30 +26,28 @@ struct PropDef {
     wall_cap_s: (u64, u64),
 }
 
+macro_rules! prop {
+    ($id:expr, $m:ident) => {
+        PropDef {
+            id: $id,
+            worker: props::$m::worker,
+            replay: props::$m::replay,
+            crash_sig: props::$m::crash_sig,
+            bounds: props::$m::bounds,
+            rule: props::$m::RULE,
+            assumptions: props::$m::ASSUMPTIONS,
+            exhaustive: props::$m::EXHAUSTIVE,
+            wall_cap_s: props::$m::WALL_CAP_S,
+        }
+    };
+}
+
 fn registry() -> Vec<PropDef> {
     vec![
-        PropDef {
-            id: "C01",
-            worker: props::c01::worker,
-            replay: props::c01::replay,
-            crash_sig: props::c01::crash_sig,
-            bounds: props::c01::bounds,
-            rule: "enumeration (no duplicates by construction): A) every instruction shape (label x output x command, 27) x every rendering style (quote-when-optional, 1|3 separator spaces, 3 leads, 6 trails incl. comments, 4 '=' spacings) x 15 argument lists; B) every argument string up to the length bound over the 15-character alphabet {a n SP \" \\ # = : $ { % TAB LF CR e-acute}, as 1, 2 and 3 arguments, x 3 shapes x 16 styles; C) every script of up to n lines from a pool of 12 lines x LF/CRLF x final line break. Oracle: parse_text(render(i)) == i. A case is non-trivial when a label or output is present or an argument needs quoting or escaping; states = distinct outcome classes (shape, argument count, character classes per argument), transitions = parse_text calls",
-            assumptions: &["characters outside the alphabet behave like 'a' or 'e-acute' (the scanner has no other special characters)", "names are restricted to the listed labels/outputs/commands"],
-            exhaustive: true,
-            wall_cap_s: (50, 1500),
-        },
-        PropDef {
-            id: "C08",
-            worker: props::c08::worker,
-            replay: props::c08::replay,
-            crash_sig: props::c08::crash_sig,
-            bounds: props::c08::bounds,
-            rule: "enumeration (no duplicates within a phase): planted malformed line (6 kinds x 4-5 spellings) at every position among every choice of well-formed lines (pool of 10), LF and CRLF; pairs of malformed lines; every sequence of tokens from a pool of 14; every text up to the length bound over {a SP \" \\ # = : ! $ { LF CR} (+TAB, e-acute). Oracle: no panic; Ok => one instruction per line with line numbers 1..n, no source tag, blank/comment lines Empty, each line parses alone to the same instruction; Err(kind,k) => 1<=k<=n and line k alone is rejected with the same kind; planted error => that kind and line. Non-trivial: the text contains one of \" \\ # = : !; states = distinct (verdict, error kind, error line, line count) classes, transitions = parse_text calls on whole texts",
-            assumptions: &["no !include_files directive in the texts (C14 covers includes)"],
-            exhaustive: true,
-            wall_cap_s: (50, 1500),
-        },
+        prop!("C01", c01),
+        prop!("C02", c02),
+        prop!("C06", c06),
+        prop!("C08", c08),
     ]
 }
 
